@@ -191,6 +191,7 @@ pub struct Features {
     pub branches: u32,
     pub matches: u32,
     pub arrays: u32,
+    pub sibling_closures: u32,
     pub pipes: u32,
     pub nodes: u32,
     pub fns: u32,
@@ -230,6 +231,7 @@ impl Features {
         f!(self.branches > 0, "f:branch");
         f!(self.matches > 0, "f:match");
         f!(self.arrays > 0, "f:array");
+        f!(self.sibling_closures > 0, "f:sibling-closures");
         f!(self.pipes > 0, "f:pipe");
         c
     }
@@ -293,6 +295,8 @@ pub struct PCfg {
     pub num_match: bool,
     /// local array literals indexed by arbitrary numeric expressions
     pub arrays: bool,
+    /// two local closures of one frame capturing the same closure-typed local
+    pub sibling_closures: bool,
     /// array indices may be +-inf (off: the index is `sin(e) * 6.0`, finite or NaN)
     pub array_index_inf: bool,
     /// nested tuple types (e.g. `(float,(float,float))`) for parameters, returns and `self`
@@ -335,6 +339,7 @@ impl Default for PCfg {
             makers_in_dsp: false,
             num_match: true,
             arrays: true,
+            sibling_closures: true,
             array_index_inf: true,
             nested_tuples: false,
         }
@@ -582,6 +587,7 @@ impl<'a> PG<'a> {
             if self.cfg.nested_tuples && tuple_callees.is_empty().not() { 4 } else { 0 }, // 18 destructure a tuple-returning call
             if self.cfg.num_match && !(sc.in_lambda && !self.cfg.if_in_lambda) { 2 } else { 0 }, // 19 match on a number
             if self.cfg.arrays && self.fuel > 0 && (self.cfg.block_operands || !sc.in_operand) { 2 } else { 0 }, // 20 indexed local array
+            if self.cfg.sibling_closures && self.cfg.closures && sc.allow_closure && !sc.in_lambda && !clo_vars.is_empty() && (self.cfg.block_operands || !sc.in_operand) { 2 } else { 0 }, // 21 sibling closures sharing a captured closure
         ];
         match self.g.weighted(&w) {
             0 => self.leaf_num(sc),
@@ -689,6 +695,32 @@ impl<'a> PG<'a> {
                 let body = self.num(&mut inner);
                 let id = self.id();
                 E::Pipe(id, Box::new(x), Box::new(E::Lam(vec![Param { name: pname, ty: Ty::Num, annotate: false }], Box::new(body))))
+            }
+            21 => {
+                // { let k = <closure>  let lo = |x| k(x) + a  let hi = |x| k(x) * b  lo(u) + hi(v) }
+                // two closures of one frame capture the same closure-typed local
+                self.feat.closures_local += 2;
+                self.feat.sibling_closures += 1;
+                let v = self.g.pick(&clo_vars).clone();
+                let nparams = if let Ty::Fun(ps, _) = &v.ty { ps.len() } else { 0 };
+                let k = self.fresh("k");
+                let mut stmts = vec![S::Let(Pat::Var(k.clone()), E::Var(v.name.clone()))];
+                let mut calls = vec![];
+                for (hint, op) in [("lo", Bop::Add), ("hi", Bop::Mul)] {
+                    let f = self.fresh(hint);
+                    let x = self.fresh("x");
+                    let id = self.id();
+                    let inner = E::Call(id, Box::new(E::Var(k.clone())), (0..nparams).map(|_| E::Var(x.clone())).collect());
+                    let c = self.lit();
+                    let body = E::Bin(op, Box::new(inner), Box::new(c));
+                    stmts.push(S::Let(Pat::Var(f.clone()), E::Lam(vec![Param { name: x, ty: Ty::Num, annotate: self.g.coin() }], Box::new(body))));
+                    let a = self.small_num(sc);
+                    let cid = self.id();
+                    calls.push(E::Call(cid, Box::new(E::Var(f)), vec![a]));
+                }
+                let b = calls.pop().unwrap();
+                let a = calls.pop().unwrap();
+                E::Block(stmts, Box::new(E::Bin(Bop::Add, Box::new(a), Box::new(b))))
             }
             20 => {
                 // { let tb = [e0, e1, ..]  tb[index] }  — the index may be any number, stateful calls included
